@@ -20,7 +20,7 @@ using dbgroup::thread::EpochManager;
 constexpr size_t kN = dbgroup::thread::kMaxThreadNum;
 constexpr size_t kInitial = EpochManager::kInitialEpoch;
 
-enum Profile : int { kPin = 0, kAdvance = 1, kLists = 2, kSequential = 3 };
+enum Profile : int { kPin = 0, kAdvance = 1, kLists = 2, kSequential = 3, kStaleNode = 4 };
 enum Kind : int {
   // worker operations (concurrent profiles)
   kGuard = 0,     // a = hold yields, b = 1: GetProtectedEpochs (list checks) / 0: CreateEpochGuard, c = re-reads of the list
@@ -28,7 +28,8 @@ enum Kind : int {
   kRestart,       // the vthread exits; a fresh vthread (possibly reusing the ID) continues with the remaining operations
   kGuardMove,     // guard created, move-constructed and move-assigned while alive (still pins)
   // coordinator operations
-  kForward,       // a = number of ForwardGlobalEpoch calls, b = yields between them
+  kForward,       // a = number of ForwardGlobalEpoch calls, b = yields between them, c = burst of forwards executed first as one
+                  //     uninterrupted block (a legal schedule: nobody else happens to run; lets a stalled worker miss hundreds of epochs)
   // sequential history (profile 3), executed one at a time
   kSeqForward,    // a = m forwards
   kSeqCreate,     // obj = worker slot
@@ -42,12 +43,12 @@ constexpr int kTagCtor = 2, kTagForward = 3, kTagGuard = 4;
 
 enum Probe : int {
   pNodeCreated = 0, pNodeRetired, pWorkerAcrossForwards, pIdReuse, pGuardSeenByForward, pQuiescentForward, pListChecked, pGuardStraddledForward,
-  pRestart, pPinnedAcrossBoundary, pProbes
+  pRestart, pPinnedAcrossBoundary, pBurst, pProbes
 };
 const char *const kProbeNames[] = {"forward_created_list_node", "forward_retired_list_node", "guard_alive_across_two_or_more_forwards",
                                    "slot_reused_by_new_thread", "live_guard_checked_after_forward", "quiescent_forward_checked",
                                    "protected_list_checked", "guard_creation_overlapped_forward", "worker_exit_and_restart",
-                                   "guard_pinned_across_node_boundary", nullptr};
+                                   "guard_pinned_across_node_boundary", "coordinator_forward_burst", nullptr};
 
 std::string g_prop;
 bool tagged(const char *tags) { return g_prop.empty() || strstr(tags, g_prop.c_str()) != nullptr; }
@@ -669,6 +670,21 @@ void entry(void *)
     set_phase("concurrent");
     for (const Op &op : p.threads[0]) {
       if (op.kind != kForward) continue;
+      if (op.c > 0) {
+        dsim::probe(pBurst);
+        const size_t nodes0 = live_nodes();
+        {
+          dsim::Observer ob(1ull << 40);
+          dsim::set_alloc_tag(kTagForward);
+          for (int64_t i = 0; i < op.c; ++i) S->mgr->ForwardGlobalEpoch();
+          dsim::set_alloc_tag(0);
+        }
+        S->forwards_started += static_cast<uint64_t>(op.c);
+        S->forwards_done += static_cast<uint64_t>(op.c);
+        S->guard_activity++;  // a burst never counts as a quiescent forward
+        if (live_nodes() != nodes0 || op.c >= 256) dsim::probe(pNodeCreated);
+        dsim::yield();
+      }
       for (int64_t i = 0; i < op.a; ++i) {
         forward_once(true);
         reading_current("coordinator");
@@ -750,13 +766,55 @@ void generate(Program &prog, dsim::Config &cfg, dsim::Rng &pr, dsim::Rng &cr, in
     cfg.max_steps = 2000000;
     return;
   }
+  if (profile == kStaleNode && W >= 2) {
+    // directed family: one guard pins a middle list node for a long time while another worker is delayed inside guard creation
+    // across hundreds of epochs (several node creations and retirements)
+    W = 2;
+    prog.params = {300 + static_cast<int64_t>(pr.below(200)), W, static_cast<int64_t>(pr.below(1000)), 1};
+    std::vector<Op> coord;
+    const int bursts = 2 + static_cast<int>(pr.below(2));
+    for (int b = 0; b < bursts; ++b) {
+      Op o;
+      o.kind = kForward;
+      o.c = 120 + static_cast<int64_t>(pr.below(400));
+      o.a = static_cast<int64_t>(pr.below(3));
+      o.b = static_cast<int64_t>(pr.below(3));
+      coord.push_back(o);
+    }
+    prog.threads.push_back(coord);
+    for (int s = 1; s <= W; ++s) {
+      std::vector<Op> ops;
+      const int nops = 1 + static_cast<int>(pr.below(2));
+      for (int i = 0; i < nops; ++i) {
+        Op o;
+        o.kind = kGuard;
+        o.a = 1 + static_cast<int64_t>(pr.below(3));
+        o.b = 1;
+        o.c = 1 + static_cast<int64_t>(pr.below(3));
+        ops.push_back(o);
+      }
+      prog.threads.push_back(ops);
+    }
+    const uint64_t st = cr.below(100);
+    cfg.strategy = st < 30 ? dsim::kRandom : (st < 55 ? dsim::kSticky : (st < 85 ? dsim::kPCT : dsim::kStall));
+    cfg.pct_depth = 1 + static_cast<int>(cr.below(3));
+    cfg.pct_len = 120;
+    cfg.sticky_percent = 40 + static_cast<int>(cr.below(55));
+    if (cfg.strategy == dsim::kStall) {
+      cfg.stall_permille = 30 + static_cast<int>(cr.below(80));
+      cfg.stall_max = 100 + static_cast<int>(cr.below(600));
+    }
+    cfg.spin_bound = 3 * n + 12;
+    cfg.max_steps = 200000;
+    return;
+  }
   // concurrent profiles.  params: [prologue forwards, W, probe hash base, probe hash stride]
   int64_t prologue = 0;
   switch (pr.below(profile == kLists ? 4 : 6)) {
     case 0: prologue = 511 - static_cast<int64_t>(pr.below(4)); break;           // epoch just below 768: next node boundary with 3 nodes alive
     case 1: prologue = 255 - static_cast<int64_t>(pr.below(4)); break;           // just below 512
     case 2: prologue = 767 - static_cast<int64_t>(pr.below(3)); break;           // just below 1024
-    case 3: prologue = 509 + static_cast<int64_t>(pr.below(6)); break;
+    case 3: prologue = pr.chance(1, 2) ? 509 + static_cast<int64_t>(pr.below(6)) : 300 + static_cast<int64_t>(pr.below(120)); break;
     case 4: prologue = 0; break;
     default: prologue = static_cast<int64_t>(pr.below(40)); break;
   }
@@ -768,6 +826,7 @@ void generate(Program &prog, dsim::Config &cfg, dsim::Rng &pr, dsim::Rng &cr, in
     o.kind = kForward;
     o.a = 1 + static_cast<int64_t>(pr.below(profile == kLists ? 5 : 4));
     o.b = static_cast<int64_t>(pr.below(4));
+    if (pr.chance(profile == kLists ? 2 : 1, 5)) o.c = 100 + static_cast<int64_t>(pr.below(500));
     coord.push_back(o);
   }
   prog.threads.push_back(coord);
@@ -830,7 +889,8 @@ std::string render(const Program &p)
   }
   s += ", prologue " + std::to_string(p.params.empty() ? 0 : p.params[0]) + " forwards (epoch " +
        std::to_string(kInitial + static_cast<size_t>(p.params.empty() ? 0 : p.params[0])) + ")\n  coordinator:";
-  for (auto &o : p.threads[0]) s += " forward x" + std::to_string(o.a) + " (yields " + std::to_string(o.b) + ");";
+  for (auto &o : p.threads[0])
+    s += (o.c ? " burst x" + std::to_string(o.c) + ";" : std::string()) + " forward x" + std::to_string(o.a) + " (yields " + std::to_string(o.b) + ");";
   s += "\n";
   for (size_t t = 1; t < p.threads.size(); ++t) {
     s += "  W" + std::to_string(t) + ":";
